@@ -50,6 +50,15 @@ RECURSIVE ToLowerFrom(_, _)
 ToLowerFrom(s, i) == IF i > Len(s) THEN "" ELSE LowerCh(Ch(s, i)) \o ToLowerFrom(s, i + 1)
 ToLower(s) == ToLowerFrom(s, 1)
 
+(* TLC 1.8 mangles characters above 0x7F in strings held in state variables, so specification
+   strings stay ASCII: "{e4}" stands for the code point U+00E4 (the harness decodes it before the
+   text reaches the code).  CpLen counts code points of the decoded text. *)
+RECURSIVE CpLenFrom(_, _)
+CpLenFrom(s, i) == IF i > Len(s) THEN 0
+                   ELSE IF Ch(s, i) = "{" THEN 1 + CpLenFrom(s, IndexFrom(s, "}", i) + 1)
+                   ELSE 1 + CpLenFrom(s, i + 1)
+CpLen(s) == CpLenFrom(s, 1)
+
 (* records read from JSON omit absent keys *)
 Get(r, k, d) == IF k \in DOMAIN r THEN r[k] ELSE d
 Has(r, k) == k \in DOMAIN r
